@@ -37,5 +37,9 @@ Wf     == WfN(t)
 NullOk == NulN(t) = RFinal(TermAt(r), s)
 \* complement is an involution without fixed points on every term the model can reach (C07, in the design)
 Involution == MkNot(MkNot(t)) = t /\ MkNot(t) # t /\ WfN(MkNot(t)) /\ NulN(MkNot(t)) = ~NulN(t)
+\* two characters of one modelled derivative class (or both in the complementary class) have the same modelled
+\* derivative: the class computation is consistent with the derivative rules (C03's uniformity, in the design)
+ClsOf(P, x) == {p \in P : p[1] <= x /\ x <= p[2]}
+ClassUniform == \A x, y \in Sigma : ClsOf(ClassesN(t), x) = ClsOf(ClassesN(t), y) => DerivN(t, x) = DerivN(t, y)
 Seeds  == TLCGet("stats").distinct >= NT
 =============================================================================
